@@ -135,7 +135,7 @@ theorem inv_log10_ge : (2 / 5 : ℝ) ≤ 1 / Real.log 10 := by
 
 /-- the code step `res.mul(invLn, trunc)` -/
 theorem scale_spec (x C : decomposed192) (t : Int8) (ht : flag3 t)
-    (hx0 : -5500 ≤ x.exp.toInt) (hx1 : x.exp.toInt ≤ 5500)
+    (hx0 : -5930 ≤ x.exp.toInt) (hx1 : x.exp.toInt ≤ 5500)
     (hC : C.exp.toInt = -57 ∨ C.exp.toInt = -58) :
     ∃ y t', decomposed192.mul x C t = .ok (y, t') ∧ flag3 t' ∧
       ((val x : ℚ) : ℝ) * ((val C : ℚ) : ℝ) * (1 - ((lam : ℚ) : ℝ)) ≤ ((val y : ℚ) : ℝ) ∧
@@ -154,7 +154,7 @@ theorem tailR_zero : tailR 0 = 0 := by unfold tailR; simp
 theorem log_at_one (a : decomposed192) (ha : a.sig.toNat ≠ 0)
     (he : -16000 ≤ a.exp.toInt ∧ a.exp.toInt ≤ 16000) (h1 : ((val a : ℚ) : ℝ) = 1) :
     ∃ (x : decomposed192) (t : Int8), Gen.decomposed192.log a = .ok (false, x, t) ∧ flag3 t ∧
-      x.sig.toNat = 0 ∧ -5500 ≤ x.exp.toInt ∧ x.exp.toInt ≤ 5500 := by
+      x.sig.toNat = 0 ∧ -5930 ≤ x.exp.toInt ∧ x.exp.toInt ≤ 5500 := by
   obtain ⟨neg, x, t, e0, M, v, S, F, hlog, ht, hxe0, hxe1, hXv, he0a, he0b, hM0, hM1, hMlo, hMhi,
     hF0, hF2M, hFS, hS2F, hex, -, hneg, herr⟩ := log_spec a ha he
   rw [h1] at hXv herr
@@ -267,10 +267,10 @@ theorem scaled_exact (rm : UInt8) (hrm : rm = 0 ∨ rm = 1) (a C : decomposed192
   have hTpos : 0 < T := lt_of_lt_of_le (by norm_num) hL
   have hx0 : (0 : ℝ) ≤ ((val x : ℚ) : ℝ) := by exact_mod_cast val_nonneg x
   have hw : |((val x : ℚ) : ℝ) - T| * (7 * 10 ^ 35) ≤ T := by
-    have : |((val x : ℚ) : ℝ) - T| * (7 * 10 ^ 35) ≤ 7 / 10 ^ 37 * (7 * 10 ^ 35) :=
+    have : |((val x : ℚ) : ℝ) - T| * (7 * 10 ^ 35) ≤ (2 / 10 ^ 47 + 7 / 10 ^ 57 * T) * (7 * 10 ^ 35) :=
       mul_le_mul_of_nonneg_right hclose (by norm_num)
-    have h2 : (7 : ℝ) / 10 ^ 37 * (7 * 10 ^ 35) ≤ 1 / 2 := by norm_num
-    linarith
+    have h2 : ((2 : ℝ) / 10 ^ 47 + 7 / 10 ^ 57 * T) * (7 * 10 ^ 35) = 14 / 10 ^ 12 + 49 / 10 ^ 22 * T := by ring
+    nlinarith
   have hsc := scale_close (7 * 10 ^ 35) (26 * 10 ^ 34) ((val x : ℚ) : ℝ) T ((val C : ℚ) : ℝ) c
     ((val y : ℚ) : ℝ) hTpos hx0 (by norm_num) (by norm_num) (by norm_num) (by norm_num) hw hCc hc0 y1 y2
   have hTc : 0 < T * c := by positivity
